@@ -47,11 +47,15 @@ def check_sketch(ctx, mk, t, where, V, ell, tau, C, slack=0.0, tol=1e-4,
                 if pred == 'bracket' else pred, tick=t,
                 where=where, **extra)
   S = (V * ell) @ V.T
-  lo = float(np.min(np.linalg.eigvalsh(0.5 * ((C - S) + (C - S).T)))) \
-      if d else 0.0
-  hi = float(np.min(np.linalg.eigvalsh(
-      0.5 * ((S + tau * np.eye(d) - C) + (S + tau * np.eye(d) - C).T)))) \
-      if d else 0.0
+  M_lo = 0.5 * ((C - S) + (C - S).T)
+  M_hi = 0.5 * ((S + tau * np.eye(d) - C) + (S + tau * np.eye(d) - C).T)
+  if not (np.all(np.isfinite(M_lo)) and np.all(np.isfinite(M_hi))):
+    # finite factors whose products overflow float64 (LAPACK may hang on
+    # non-finite input): nothing to compare
+    ctx.ev('fd_bracket', 'vacuous')
+    return False
+  lo = float(np.min(np.linalg.eigvalsh(M_lo))) if d else 0.0
+  hi = float(np.min(np.linalg.eigvalsh(M_hi))) if d else 0.0
   bound = tol * max(sc, 1e-300)
   ok_lo = lo >= -bound - slack
   ok_hi = hi >= -bound
